@@ -167,6 +167,48 @@ def parse(s):
     return p
 
 
+def bare_name(pat):
+    """The identifier when a pattern is just a variable (possibly under ! or @deref), else None."""
+    pat = parse(pat)
+    while True:
+        if pat[0] == "un" and pat[1] == "!":
+            pat = pat[2]
+        elif pat[0] == "fn" and pat[1] in ("deref", "strip", "lit") and pat[2]:
+            pat = pat[2][0]
+        else:
+            break
+    return pat[1] if pat[0] == "name" else None
+
+
+def pattern_names(pat):
+    """Identifiers used as *variables* in a pattern (not callees, not field names)."""
+    pat = parse(pat)
+    out = set()
+
+    def rec(p):
+        k = p[0]
+        if k == "name":
+            out.add(p[1])
+        elif k == "mem":
+            rec(p[2])
+        elif k == "idx":
+            rec(p[1]); rec(p[2])
+        elif k == "call":
+            if p[1][0] not in ("name",):
+                rec(p[1])
+            for a in p[2]:
+                rec(a)
+        elif k in ("un",):
+            rec(p[2])
+        elif k in ("bin", "assign"):
+            rec(p[2]); rec(p[3])
+        elif k == "fn":
+            for a in p[2]:
+                rec(a)
+    rec(pat)
+    return out
+
+
 def canon(e):
     """Structural key of an expression, ignoring locations/element tags."""
     return show(e, 0)
@@ -209,6 +251,8 @@ class M:
     def _renamed(self, nm, e, env):
         if self.fn is None or e.get("dk") not in ("local", "param") or nm in self.consts:
             return False
+        if env.get("!bare") == nm and nm not in getattr(self.fn, "_renames", {}):
+            return False      # a bare-name pattern would bind to anything: resolved by the caller instead
         if nm in self._known_names():
             return False
         committed = getattr(self.fn, "_renames", {})
@@ -228,7 +272,7 @@ class M:
         if self.fn is None:
             return
         for k, v in env.items():
-            if k.startswith("~"):
+            if k.startswith("~") and isinstance(v, str):
                 if not hasattr(self.fn, "_renames"):
                     self.fn._renames = {}
                 self.fn._renames.setdefault(k[1:], v)
@@ -393,6 +437,9 @@ class M:
 
     def _mc(self, pat, e):
         env = {}
+        b = bare_name(pat)
+        if b:
+            env["!bare"] = b
         ok = self._m(pat, e, env, 0)
         if ok:
             self._commit(env)
